@@ -3,6 +3,7 @@ import FinamModel.Translated.Output__interpolate
 import FinamModel.Translated.Output__clear_data
 import FinamModel.Translated.Output_get_data
 import FinamModel.Static
+import FinamModel.Props.C09
 import FinamModel.Props.TrCommon
 /-
   Equivalence of the translated `Output._interpolate` (regenerated from `finam/sdk/output.py`) with the
@@ -230,6 +231,124 @@ theorem tr_Output_get_data {α} (d : List (Int × α)) (ci : List (Nat × Option
       refine ⟨ci', ?_, h2, h3⟩
       simp only [ok_bind, Tr.Output_get_data.join1, Bool.false_eq_true, not_false_eq_true, if_true, h1,
         Tr.Output_get_data.join2, ite_self, pure_eq_ok]
+
+/-! ### C09 on the regenerated code
+
+An output whose pulls are answered by the *translated* `Output.get_data` (publications are appended, as
+`push_data` does once the payload is prepared), with `n` registered end points. -/
+
+structure CodeOut (α : Type) where
+  data : List (Int × α)
+  ci : List (Nat × Option Int)
+
+def codeInit (α : Type) (n : Nat) : CodeOut α := ⟨[], (List.range n).map fun k => (k, none)⟩
+
+def codeStep {α} (s : CodeOut α) : Ev α → CodeOut α × Option (Except Err α)
+  | .push t v => (⟨s.data ++ [(t, v)], s.ci⟩, none)
+  | .pull k t =>
+    match Tr.Output_get_data (some ()) (Py.len s.ci) s.ci s.data false t k with
+    | .ok (v, ci', data') => (⟨data', ci'⟩, some (.ok v))
+    | .error e => (s, some (.error e))
+
+def codeRun {α} : CodeOut α → List (Ev α) → List (Option (Except Err α))
+  | _, [] => []
+  | s, ev :: evs => (codeStep s ev).2 :: codeRun (codeStep s ev).1 evs
+
+/-- the code state represents the model state -/
+structure CodeRel {α} (n : Nat) (c : CodeOut α) (s : OState α) : Prop where
+  data : toE c.data = s.ret
+  vals : c.ci.map Prod.snd = s.last
+  keys : c.ci.map Prod.fst = List.range n
+
+theorem toE_append {α} (a b : List (Int × α)) : toE (a ++ b) = toE a ++ toE b := by simp [toE]
+
+theorem get_data_nodata {α} (ci : List (Nat × Option Int)) (ex : Int) (t : Int) (target : Nat) :
+    Tr.Output_get_data (some ()) ex ci ([] : List (Int × α)) false t target = .error .noData := by
+  unfold Tr.Output_get_data
+  by_cases h : ex < Py.len ci <;> simp [h]
+
+theorem code_step_sim {α} (n : Nat) (c : CodeOut α) (s : OState α) (hr : CodeRel n c s) (ev : Ev α)
+    (hp : preB s ev = true) :
+    (codeStep c ev).2 = (stepImpl s ev).2 ∧ CodeRel n (codeStep c ev).1 (stepImpl s ev).1 := by
+  cases ev with
+  | push t v =>
+    refine ⟨rfl, ?_, hr.vals, hr.keys⟩
+    show toE (c.data ++ [(t, v)]) = s.ret ++ [⟨t, v⟩]
+    rw [toE_append, hr.data]; rfl
+  | pull k t =>
+    have hk : k < s.last.length := by
+      simp only [preB, Bool.and_eq_true, decide_eq_true_eq] at hp; exact hp.1
+    have hlen : s.last.length = n := by
+      rw [← hr.vals]; have := congrArg List.length hr.keys; simpa using this
+    have hkey : (c.ci.map Prod.fst)[k]? = some k := by
+      rw [hr.keys, List.getElem?_range (by omega)]
+    have hnd : (c.ci.map Prod.fst).Nodup := by rw [hr.keys]; exact List.nodup_range
+    obtain ⟨cd, cci⟩ := c
+    obtain ⟨hdata, hvals, hkeys⟩ := hr
+    simp only at hdata hvals hkeys hkey hnd
+    cases cd with
+    | nil =>
+      have hret : s.ret = [] := by rw [← hdata]; rfl
+      simp only [codeStep, get_data_nodata, stepImpl, hret, lookup]
+      refine ⟨by first | rfl | trivial, ⟨?_, hvals, hkeys⟩⟩
+      simp [hret]
+    | cons p r =>
+      have hmain := tr_Output_get_data (p :: r) cci (Py.len cci) k k t (by omega) (by simp) hnd hkey
+      have hret : s.ret = toE (p :: r) := by rw [← hdata]
+      simp only [codeStep, stepImpl, hret]
+      cases hl : lookup (toE (p :: r)) t with
+      | error e =>
+        rw [hl] at hmain
+        simp only [hmain]
+        refine ⟨by first | rfl | trivial, ⟨?_, hvals, hkeys⟩⟩
+        first | exact hret.symm | exact hdata | (simp only []; exact hret.symm)
+      | ok v =>
+        rw [hl] at hmain
+        obtain ⟨ci', h1, h2, h3⟩ := hmain
+        simp only [h1]
+        refine ⟨by first | rfl | trivial, ⟨?_, ?_, ?_⟩⟩
+        · simp only [toE_ofE, hvals]
+          cases minLast (s.last.set k (some t)) <;> simp
+        · simp only [h2, hvals]
+        · simp only [h3, hkeys]
+
+theorem code_run_sim {α} (n : Nat) : ∀ (evs : List (Ev α)) (c : CodeOut α) (s : OState α), CodeRel n c s →
+    preAllB s evs = true → codeRun c evs = (runBoth s evs).map (·.1) := by
+  intro evs
+  induction evs with
+  | nil => intro c s _ _; rfl
+  | cons ev evs ih =>
+    intro c s hr hp
+    simp only [preAllB, Bool.and_eq_true] at hp
+    obtain ⟨h1, h2⟩ := code_step_sim n c s hr ev hp.1
+    simp only [codeRun, runBoth, List.map_cons, h1]
+    rw [ih _ _ h2 hp.2]
+
+/-- **C09 on the code.**  For every interleaving of publications (increasing times) and pulls by `n` end points
+    (non-decreasing requests per end point), every pull answered by the *translated* `Output.get_data` returns what an
+    output with unlimited history returns — nothing a consumer may still request has been discarded by the translated
+    `_clear_data`. -/
+theorem code_evict_refines_unbounded {α} (n : Nat) (evs : List (Ev α))
+    (h : preAllB (initState α n) evs = true) :
+    codeRun (codeInit α n) evs = (runBoth (initState α n) evs).map (·.2) := by
+  have hrel : CodeRel n (codeInit α n) (initState α n) :=
+    ⟨rfl, by
+      simp only [codeInit, initState, List.map_map, Function.comp_def]
+      clear h
+      induction n with
+      | zero => rfl
+      | succ n ih => simp [List.range_succ, List.replicate_succ', ih],
+     by simp [codeInit, List.map_map, Function.comp_def]⟩
+  rw [code_run_sim n evs _ _ hrel h]
+  apply List.map_congr_left
+  intro p hp
+  exact evict_refines_unbounded n evs h p hp
+
+/-- non-vacuity: the two-consumer history of `Props/C09.lean` (with evictions) run through the translated code -/
+example : codeRun (codeInit Nat 2) exEvs =
+    [none, some (.ok 0), some (.ok 0), none, some (.ok 1), none, some (.ok 1), some (.ok 2), some (.ok 2)] := by
+  have h := code_evict_refines_unbounded 2 exEvs (by decide)
+  rw [h]; decide
 
 end Finam.Props.C09
 
